@@ -97,6 +97,39 @@ func caseTags(args []vlib.Sx) (*res, error) {
 			}
 		}
 	}
+	// the same tags when every language system selects the SAME features as
+	// the script's default language system (one shared *Features value for half
+	// of them, equal copies for the others): a tag is data of its own, it must
+	// come back whether or not its language system differs from the default
+	{
+		shared := &gtab.Features{Required: 3, Optional: []gtab.FeatureIndex{1, 7}}
+		same := gtab.ScriptListInfo{}
+		k := 0
+		for tag := range info {
+			if k%2 == 0 {
+				same[tag] = shared
+			} else {
+				same[tag] = &gtab.Features{Required: 3, Optional: []gtab.FeatureIndex{1, 7}}
+			}
+			k++
+		}
+		var back3 gtab.ScriptListInfo
+		if p, msg := guard(func() { back3, rerr = gtab.VerifC14ReadScriptList(gtab.VerifC14EncodeScriptList(same)) }); p {
+			r.failf("c14-scriptlist-panic", "ScriptList encode/read panics (equal language systems): %s", msg)
+		} else if rerr != nil {
+			r.failf("c14-scriptlist-roundtrip", "readScriptList rejects the encoded list of script %q (equal language systems): %v", script, rerr)
+		} else {
+			if len(back3) != len(same) {
+				r.failf("c14-scriptlist-roundtrip", "script %q, all language systems equal to the default: %d tags written, %d read", script, len(same), len(back3))
+			}
+			for tag := range same {
+				if g, ok := back3[tag]; !ok || g.Required != 3 || len(g.Optional) != 2 {
+					r.failf("c14-scriptlist-roundtrip", "script %q: tag %v (language system equal to the default) lost or changed in the encoded script list", script, tag)
+					break
+				}
+			}
+		}
+	}
 	// and through the public API: (*gtab.Info).Encode / gtab.Read of a whole GSUB table
 	full := &gtab.Info{
 		ScriptList:  info,
